@@ -121,6 +121,7 @@ def run(program, res, tier):
     c09._s1(program, Relabel(res, {"*": "C01-S3"}))
     c09.sql_counts_rule(program, Relabel(res, {"*": "C01-S3"}), rule="C01-S3", dialects=(("SQLite", "SQLiteModel"),))
     c04._s1a(program, Relabel(res, {"*": "C01-S4"}))
+    c04.clause_pushdown_rule(program, Relabel(res, {"*": "C01-S4"}))
     c04._s1c(program, Relabel(res, {"*": "C01-S4"}))
     from . import c08 as _c08
     _c08._s8_empty_request(program, Relabel(res, {"*": "C01-S4"}))
